@@ -117,7 +117,7 @@ func runSelPlan(p *selPlan) (viol string, st selStats) {
 	fail := func(sig, format string, a ...any) {
 		if viol == "" {
 			viol = fmt.Sprintf("SIG=C19/%s/%s ", p.Policy, sig) + fmt.Sprintf(format, a...) +
-				fmt.Sprintf(" [proto=%s members=%v fakes=%d seq1=%d G=%d perG=%v seq2=%d]", p.Proto, p.Members, p.Fakes, len(p.Seq1), p.G, p.PerG, len(p.Seq2))
+				fmt.Sprintf(" [proto=%s members=%v fakes=%d seq1=%d G=%d perG=%v seq2=%d other-side=%q over %v interleaved=%v]", p.Proto, p.Members, p.Fakes, len(p.Seq1), p.G, p.PerG, len(p.Seq2), p.Other, p.OtherMembers, p.Interleave)
 		}
 	}
 	tcpMap := map[string]netio.StreamClient{}
